@@ -10,6 +10,12 @@ use std::path::{Path, PathBuf};
 use std::time::{Duration, SystemTime, UNIX_EPOCH};
 
 fn in_path(root: &Path, k: u64) -> PathBuf {
+    // keys 6..11 are the upper-case spellings of keys 0..5: different files (the file system is case-sensitive) whose paths are equal
+    // under ASCII case folding
+    if (6..12).contains(&k) {
+        let j = k - 6;
+        return root.join(format!("D{}", j % 3)).join(format!("N{}", j % 2)).join(format!("F{}", j));
+    }
     root.join(format!("d{}", k % 3)).join(format!("n{}", k % 2)).join(format!("f{}", k))
 }
 
@@ -22,6 +28,8 @@ fn list(dir: &Path, out: &mut Vec<u64>) {
             } else if let Some(n) = p.file_name().and_then(|n| n.to_str()) {
                 if let Some(k) = n.strip_prefix('f').and_then(|s| s.parse().ok()) {
                     out.push(k);
+                } else if let Some(j) = n.strip_prefix('F').and_then(|s| s.parse::<u64>().ok()) {
+                    out.push(j + 6);          // the upper-case spelling of key j is key j + 6 (in_path)
                 }
             }
         }
@@ -39,7 +47,8 @@ fn snapshot(qm: &QuotaManager, root: &Path, outside: &Path, base: u64) -> String
         .verif_rows()
         .iter()
         .map(|(p, size, _c, a)| {
-            let k: u64 = Path::new(p).file_name().unwrap().to_str().unwrap()[1..].parse().unwrap();
+            let name = Path::new(p).file_name().unwrap().to_str().unwrap();
+            let k: u64 = name[1..].parse::<u64>().unwrap() + if name.starts_with('F') { 6 } else { 0 };
             let age = base as i64 - *a;
             format!("{}:{}:{}", k, size, if age % 3600 == 0 { (age / 3600).to_string() } else { format!("?{}", age) })
         })
